@@ -108,9 +108,12 @@ Proof.
 Qed.
 
 (* ------------------------------------------------------------------------- dict displays *)
-Definition ev_kr (kr : Z * nres) : Z * nval := match kr with (k, r') => (k, eval_r ct r') end.
+Definition ev_kr_gen (ev : nres -> nval) (kr : Z * nres) : Z * nval := match kr with (k, r') => (k, ev r') end.
+Lemma ev_kr_gen_keys : forall ev l, map fst (map (ev_kr_gen ev) l) = map fst l.
+Proof. intros ev l. rewrite map_map. apply map_ext. intros [k r]. reflexivity. Qed.
+Definition ev_kr : Z * nres -> Z * nval := ev_kr_gen (eval_r ct).
 Lemma ev_kr_keys : forall l, map fst (map ev_kr l) = map fst l.
-Proof. intros l. rewrite map_map. apply map_ext. intros [k r]. reflexivity. Qed.
+Proof. intros l. apply ev_kr_gen_keys. Qed.
 
 Lemma dassign_entry_keys : forall asg F e news x, In x (map fst (dassign_entry asg F e news)) -> x = fst e.
 Proof.
@@ -141,43 +144,56 @@ Proof.
     destruct (alookup (fst e) olds) eqn:El; [discriminate|]. apply alookup_none in El. apply El. apply in_map. exact He.
 Qed.
 
-Lemma dict_fix_eq : forall asg F olds news, f_fix F = true -> NoDup (map fst olds) -> NoDup (map fst news) ->
-  (forall k o v, In (k, o) olds -> In (k, v) news -> val_eqb (eval_r ct (asg o v)) v = true) ->
-  (forall k v, In (k, v) news -> val_eqb v v = true) ->
-  val_eqb (eval_r ct (QDict (dict_result asg F olds news))) (NDict news) = true.
+(* `ev` is how the result of a child is read: eval_r (the value of the repaired text), or the value of the source tree it denotes *)
+Lemma dict_fix_eq_gen : forall (ev : nres -> nval) asg F olds news, f_fix F = true -> NoDup (map fst olds) -> NoDup (map fst news) ->
+  (forall k o v, In (k, o) olds -> In (k, v) news -> val_eqb (ev (asg o v)) v = true) ->
+  (forall k v, In (k, v) news -> val_eqb (ev (QGen v)) v = true) ->
+  val_eqb (NDict (mkdict (map (ev_kr_gen ev) (dict_result asg F olds news)))) (NDict news) = true.
 Proof.
-  intros asg F olds news HF Hno Hnn Ha Hr.
+  intros ev asg F olds news HF Hno Hnn Ha Hr.
   set (res := dict_result asg F olds news).
   pose proof (dict_result_perm asg F olds news HF Hno Hnn) as P. fold res in P.
   pose proof (dict_result_nodup asg F olds news HF Hno Hnn) as K1. fold res in K1.
-  assert (K2 : forall k r, In (k, r) res -> exists v, In (k, v) news /\ val_eqb (eval_r ct r) v = true).
+  assert (K2 : forall k r, In (k, r) res -> exists v, In (k, v) news /\ val_eqb (ev r) v = true).
   { intros k r Hin. apply (Permutation_in _ P) in Hin. apply in_app_or in Hin. destruct Hin as [Hin|Hin].
     - apply in_flat_map in Hin. destruct Hin as [[k0 o] [He Hin]]. unfold dassign_entry in Hin. cbn [fst snd] in Hin.
       destruct (alookup k0 news) as [v|] eqn:El; [|rewrite HF in Hin; destruct Hin].
       destruct Hin as [E|[]]. injection E as <- <-. apply alookup_in in El. exists v. split; [exact El|]. exact (Ha k0 o v He El).
     - apply in_map_iff in Hin. destruct Hin as [[k0 v] [E Hin]]. cbn [fst snd] in E. injection E as <- <-.
-      unfold new_entries in Hin. apply filter_In in Hin. destruct Hin as [Hin _]. exists v. split; [exact Hin|]. cbn [eval_r]. exact (Hr k0 v Hin). }
+      unfold new_entries in Hin. apply filter_In in Hin. destruct Hin as [Hin _]. exists v. split; [exact Hin|]. exact (Hr k0 v Hin). }
   assert (K3 : forall k v, In (k, v) news -> In k (map fst res)).
   { intros k v Hin. eapply Permutation_in; [apply Permutation_map, Permutation_sym, P|]. rewrite map_app. apply in_or_app.
     destruct (alookup k olds) as [o|] eqn:El.
     - left. apply alookup_in in El. apply in_map_iff. exists (k, asg o v). split; [reflexivity|].
       apply in_flat_map. exists (k, o). split; [exact El|]. unfold dassign_entry. cbn [fst snd]. rewrite (alookup_nodup _ k v news Hnn Hin). left. reflexivity.
     - right. rewrite map_map. cbn [fst]. apply in_map_iff. exists (k, v). split; [reflexivity|]. unfold new_entries. apply filter_In. split; [exact Hin|]. cbn [fst]. rewrite El. reflexivity. }
-  cbn [eval_r]. fold ev_kr. rewrite mkdict_nodup by (rewrite ev_kr_keys; exact K1).
+  rewrite mkdict_nodup by (rewrite ev_kr_gen_keys; exact K1).
   rewrite val_eqb_dict. apply andb_true_iff. split.
   - apply Nat.eqb_eq. rewrite map_length. rewrite <- (map_length fst res), <- (map_length fst news). apply Nat.le_antisymm.
     + apply NoDup_incl_length; [exact K1|]. intros k Hk. apply in_map_iff in Hk. destruct Hk as [[k0 r] [E Hin]]. cbn [fst] in E. subst k0.
       destruct (K2 k r Hin) as [v [Hv _]]. apply in_map_iff. exists (k, v). split; [reflexivity|exact Hv].
     + apply NoDup_incl_length; [exact Hnn|]. intros k Hk. apply in_map_iff in Hk. destruct Hk as [[k0 v] [E Hin]]. cbn [fst] in E. subst k0. exact (K3 k v Hin).
-  - apply dsub_intro. intros k w Hin. apply in_map_iff in Hin. destruct Hin as [[k0 r] [E Hin]]. cbn [ev_kr] in E. injection E as <- <-.
+  - apply dsub_intro. intros k w Hin. apply in_map_iff in Hin. destruct Hin as [[k0 r] [E Hin]]. cbn [ev_kr_gen] in E. injection E as <- <-.
     destruct (K2 k0 r Hin) as [v [Hv He]]. exists v. split; [apply alookup_nodup; assumption|exact He].
+Qed.
+Lemma dict_fix_eq : forall asg F olds news, f_fix F = true -> NoDup (map fst olds) -> NoDup (map fst news) ->
+  (forall k o v, In (k, o) olds -> In (k, v) news -> val_eqb (eval_r ct (asg o v)) v = true) ->
+  (forall k v, In (k, v) news -> val_eqb v v = true) ->
+  val_eqb (eval_r ct (QDict (dict_result asg F olds news))) (NDict news) = true.
+Proof.
+  intros asg F olds news HF Hno Hnn Ha Hr. cbn [eval_r].
+  apply (dict_fix_eq_gen (eval_r ct) asg F olds news HF Hno Hnn Ha). intros k v Hin. cbn [eval_r]. exact (Hr k v Hin).
 Qed.
 
 (* ------------------------------------------------------------------------- constructor calls *)
-Definition posvals (l : list (option Z * nres)) : list nval :=
-  flat_map (fun ar => match ar with (None, r') => [eval_r ct r'] | (Some _, _) => [] end) l.
-Definition kwvals (l : list (option Z * nres)) : list (Z * nval) :=
-  flat_map (fun ar => match ar with (Some k, r') => [(k, eval_r ct r')] | (None, _) => [] end) l.
+Definition posvals_gen (ev : nres -> nval) (l : list (option Z * nres)) : list nval :=
+  flat_map (fun ar => match ar with (None, r') => [ev r'] | (Some _, _) => [] end) l.
+Definition kwvals_gen (ev : nres -> nval) (l : list (option Z * nres)) : list (Z * nval) :=
+  flat_map (fun ar => match ar with (Some k, r') => [(k, ev r')] | (None, _) => [] end) l.
+Section Ev.
+Variable ev : nres -> nval.
+Notation posvals := (posvals_gen ev).
+Notation kwvals := (kwvals_gen ev).
 
 Lemma cassign_el_fix_kw : forall asg F c fs e x, f_fix F = true -> In x (cassign_el ct asg F c fs e) ->
   exists k t r, e = inr (k, t) /\ x = (Some k, r).
@@ -194,27 +210,27 @@ Qed.
 Lemma posvals_nil : forall l, (forall x, In x l -> fst x <> None) -> posvals l = [].
 Proof.
   induction l as [|[[k|] r] l IH]; intros H; [reflexivity| |exfalso; apply (H (None, r)); [left; reflexivity|reflexivity]].
-  unfold posvals. cbn [flat_map app]. apply IH. intros x Hx. apply H. right. exact Hx.
+  unfold posvals_gen. cbn [flat_map app]. apply IH. intros x Hx. apply H. right. exact Hx.
 Qed.
 Lemma kwvals_app : forall a b, kwvals (a ++ b) = kwvals a ++ kwvals b.
-Proof. intros. unfold kwvals. apply flat_map_app. Qed.
+Proof. intros. unfold kwvals_gen. apply flat_map_app. Qed.
 Lemma kwvals_perm : forall a b, Permutation a b -> Permutation (kwvals a) (kwvals b).
 Proof.
-  intros a b P. unfold kwvals. induction P as [|x l l' P IH|x y l|l l' l'' P1 IH1 P2 IH2]; cbn [flat_map].
+  intros a b P. unfold kwvals_gen. induction P as [|x l l' P IH|x y l|l l' l'' P1 IH1 P2 IH2]; cbn [flat_map].
   - constructor.
   - apply Permutation_app_head. exact IH.
   - rewrite !app_assoc. apply Permutation_app_tail. apply Permutation_app_comm.
   - eapply Permutation_trans; eassumption.
 Qed.
-Lemma in_kwvals : forall l k w, In (k, w) (kwvals l) <-> exists r, In (Some k, r) l /\ w = eval_r ct r.
+Lemma in_kwvals : forall l k w, In (k, w) (kwvals l) <-> exists r, In (Some k, r) l /\ w = ev r.
 Proof.
-  intros l k w. unfold kwvals. rewrite in_flat_map. split.
+  intros l k w. unfold kwvals_gen. rewrite in_flat_map. split.
   - intros [[[k0|] r] [Hin Hx]]; [|destruct Hx]. destruct Hx as [E|[]]. injection E as <- <-. exists r. split; [exact Hin|reflexivity].
   - intros [r [Hin ->]]. exists (Some k, r). split; [exact Hin|left; reflexivity].
 Qed.
 
 Lemma kwvals_gens_keys : forall l : list (Z * nval), map fst (kwvals (map (fun kv : Z * nval => (Some (fst kv), QGen (snd kv))) l)) = map fst l.
-Proof. induction l as [|[k v] r IH]; [reflexivity|]. cbn [map]. unfold kwvals. cbn [flat_map app map fst]. f_equal. exact IH. Qed.
+Proof. induction l as [|[k v] r IH]; [reflexivity|]. cbn [map]. unfold kwvals_gen. cbn [flat_map app map fst]. f_equal. exact IH. Qed.
 
 Lemma fill_fields_eqb : forall fields fs i kws, NoDup (map fst fields) -> map fst fs = map fst fields ->
   (forall name d v, In (name, d) fields -> In (name, v) fs ->
@@ -229,27 +245,28 @@ Proof.
   apply IH; [exact Hnd'|exact Hn|]. intros name0 d0 v0 H1 H2. apply H; right; assumption.
 Qed.
 
-Lemma call_fix_eq : forall asg F c pos kws fs, ct_ok -> f_fix F = true -> NoDup (map fst kws) -> map fst fs = map fst (ct c) ->
+Lemma call_fix_eq_gen : forall asg F c pos kws fs, ct_ok -> f_fix F = true -> NoDup (map fst kws) -> map fst fs = map fst (ct c) ->
   (forall k t, In (k, t) kws -> is_unm t = false) ->
-  (forall k t v, In (k, t) kws -> In (k, v) fs -> val_eqb (eval_r ct (asg t v)) v = true) ->
-  (forall k v, In (k, v) fs -> val_eqb v v = true) ->
-  val_eqb (eval_r ct (QCall c (call_result ct asg F c pos kws fs))) (NObj c fs) = true.
+  (forall k t v, In (k, t) kws -> In (k, v) fs -> val_eqb (ev (asg t v)) v = true) ->
+  (forall k t, In (k, t) kws -> ev (QKeep t) = eval ct t) ->
+  (forall k v, In (k, v) fs -> val_eqb (ev (QGen v)) v = true) ->
+  val_eqb (NObj c (fill 0 (ct c) (posvals (call_result ct asg F c pos kws fs)) (kwvals (call_result ct asg F c pos kws fs)))) (NObj c fs) = true.
 Proof.
-  intros asg F c pos kws fs Hct HF Hnk Hconf Hunm Ha Hr.
+  intros asg F c pos kws fs Hct HF Hnk Hconf Hunm Ha Hkeep Hr.
   assert (Hnf : NoDup (map fst fs)) by (rewrite Hconf; apply Hct).
   set (res := call_result ct asg F c pos kws fs).
   pose proof (call_result_perm ct asg F c pos kws fs HF) as P. fold res in P.
   set (A := flat_map (cassign_el ct asg F c fs) (elements pos kws)) in P.
   set (B := map (fun kv : Z * nval => (Some (fst kv), QGen (snd kv))) (new_fields ct c kws fs)) in P.
   (* what an old argument contributes *)
-  assert (HA : forall k r, In (Some k, r) A -> exists t v, In (k, t) kws /\ In (k, v) fs /\ val_eqb (eval_r ct r) v = true).
+  assert (HA : forall k r, In (Some k, r) A -> exists t v, In (k, t) kws /\ In (k, v) fs /\ val_eqb (ev r) v = true).
   { intros k r Hin. unfold A in Hin. apply in_flat_map in Hin. destruct Hin as [e [He Hin]].
     destruct e as [t|[k0 t]]; cbn [cassign_el] in Hin; [unfold cassign_pos in Hin; rewrite HF in Hin; destruct Hin|].
     assert (Hkt : In (k0, t) kws) by (apply (in_elements_kw pos kws); exact He).
     unfold cassign_kw in Hin. destruct (alookup k0 fs) as [v|] eqn:El; [|rewrite HF in Hin; destruct Hin]. apply alookup_in in El.
     destruct (is_default ct c k0 v).
     - rewrite (Hunm k0 t Hkt) in Hin. destruct (val_eqb (eval ct t) v) eqn:Ev; [destruct (f_update F)|rewrite HF in Hin]; try destruct Hin as [E|[]]; try destruct Hin.
-      injection E as <- <-. exists t, v. split; [exact Hkt|split; [exact El|exact Ev]].
+      injection E as <- <-. exists t, v. split; [exact Hkt|split; [exact El|rewrite (Hkeep k0 t Hkt); exact Ev]].
     - destruct Hin as [E|[]]. injection E as <- <-. exists t, v. split; [exact Hkt|split; [exact El|exact (Ha k0 t v Hkt El)]]. }
   assert (HB : forall k r, In (Some k, r) B -> exists v, r = QGen v /\ In (k, v) fs /\ kw_index k kws = None /\ is_default ct c k v = false).
   { intros k r Hin. unfold B in Hin. apply in_map_iff in Hin. destruct Hin as [[k0 v] [E Hin]]. cbn [fst snd] in E. injection E as <- <-.
@@ -290,17 +307,17 @@ Proof.
   assert (K2 : forall k w, In (k, w) (kwvals res) -> exists v, In (k, v) fs /\ val_eqb w v = true).
   { intros k w Hin. apply (Permutation_in _ PK) in Hin. apply in_app_or in Hin. destruct Hin as [Hin|Hin]; apply in_kwvals in Hin; destruct Hin as [r [Hin ->]].
     - destruct (HA k r Hin) as [t [v [_ [Hv He]]]]. exists v. split; assumption.
-    - destruct (HB k r Hin) as [v [-> [Hv _]]]. exists v. split; [exact Hv|]. cbn [eval_r]. exact (Hr k v Hv). }
+    - destruct (HB k r Hin) as [v [-> [Hv _]]]. exists v. split; [exact Hv|]. exact (Hr k v Hv). }
   assert (K3 : forall name v, In (name, v) fs -> is_default ct c name v = false -> In name (map fst (kwvals res))).
   { intros name v Hin Hd. eapply Permutation_in; [apply Permutation_map, Permutation_sym, PK|]. rewrite map_app. apply in_or_app.
     destruct (kw_index name kws) as [i|] eqn:Ei.
     - left. apply kw_index_some in Ei. destruct Ei as [_ Ei]. apply in_map_iff in Ei. destruct Ei as [[k t] [E Hkt]]. cbn [fst] in E. subst k.
-      apply in_map_iff. exists (name, eval_r ct (asg t v)). split; [reflexivity|]. apply in_kwvals. exists (asg t v). split; [|reflexivity].
+      apply in_map_iff. exists (name, ev (asg t v)). split; [reflexivity|]. apply in_kwvals. exists (asg t v). split; [|reflexivity].
       unfold A. apply in_flat_map. exists (inr (name, t)). split; [unfold elements; apply in_or_app; right; apply in_map; exact Hkt|].
       cbn [cassign_el]. unfold cassign_kw. rewrite (alookup_nodup _ name v fs Hnf Hin), Hd. left. reflexivity.
-    - right. apply in_map_iff. exists (name, v). split; [reflexivity|]. apply in_kwvals. exists (QGen v). split; [|reflexivity].
+    - right. apply in_map_iff. exists (name, ev (QGen v)). split; [reflexivity|]. apply in_kwvals. exists (QGen v). split; [|reflexivity].
       unfold B. apply in_map_iff. exists (name, v). split; [reflexivity|]. unfold new_fields. apply filter_In. split; [exact Hin|]. cbn [fst snd]. rewrite Hd, Ei. reflexivity. }
-  cbn [eval_r]. fold (posvals res). fold (kwvals res). rewrite K0. rewrite val_eqb_obj, Z.eqb_refl. cbn [andb].
+  fold res. rewrite K0. rewrite val_eqb_obj, Z.eqb_refl. cbn [andb].
   apply fill_fields_eqb; [apply Hct|exact Hconf|]. intros name d v Hf Hv.
   destruct (alookup name (kwvals res)) as [w|] eqn:El.
   - apply alookup_in in El. destruct (K2 name w El) as [v' [Hv' He]].
@@ -310,6 +327,21 @@ Proof.
   - apply alookup_none in El. destruct (is_default ct c name v) eqn:Hd; [|exfalso; apply El; exact (K3 name v Hv Hd)].
     unfold is_default in Hd. rewrite (alookup_nodup _ name d (ct c) (Hct c) Hf) in Hd. destruct d as [d|]; [exact Hd|discriminate].
 Qed.
+End Ev.
+
+Definition posvals : list (option Z * nres) -> list nval := posvals_gen (eval_r ct).
+Definition kwvals : list (option Z * nres) -> list (Z * nval) := kwvals_gen (eval_r ct).
+Lemma call_fix_eq : forall asg F c pos kws fs, ct_ok -> f_fix F = true -> NoDup (map fst kws) -> map fst fs = map fst (ct c) ->
+  (forall k t, In (k, t) kws -> is_unm t = false) ->
+  (forall k t v, In (k, t) kws -> In (k, v) fs -> val_eqb (eval_r ct (asg t v)) v = true) ->
+  (forall k v, In (k, v) fs -> val_eqb v v = true) ->
+  val_eqb (eval_r ct (QCall c (call_result ct asg F c pos kws fs))) (NObj c fs) = true.
+Proof.
+  intros asg F c pos kws fs Hct HF Hnk Hconf Hunm Ha Hr. cbn [eval_r].
+  apply (call_fix_eq_gen (eval_r ct) asg F c pos kws fs Hct HF Hnk Hconf Hunm Ha); [intros; reflexivity|intros k v Hin; cbn [eval_r]; exact (Hr k v Hin)].
+Qed.
+Lemma in_kwvals' : forall l k w, In (k, w) (kwvals l) <-> exists r, In (Some k, r) l /\ w = eval_r ct r.
+Proof. intros. apply in_kwvals. Qed.
 
 (* ------------------------------------------------------------------------- the theorem *)
 Lemma forallb_in : forall X (p : X -> bool) l x, forallb p l = true -> In x l -> p x = true.
